@@ -121,7 +121,7 @@ class Ctx:
         if dump and r.dump_path and os.path.exists(r.dump_path):
             with open(r.dump_path) as f:
                 text = f.read()
-            states = list(tlaval.iter_dump_states(text))
+            states = tlaval.parse_dump_parallel(text, None, processes=min(NCPU, 8))
             os.remove(r.dump_path)
         return r, states
 
@@ -170,7 +170,7 @@ class Ctx:
             os.remove(r.dump_path)
             os.remove(tpath)
             got = {}
-            for st in tlaval.iter_dump_states(text):
+            for st in tlaval.parse_dump_parallel(text, 'ph = "ret"', processes=min(NCPU, 8)):
                 if st.get("ph") == "ret":
                     got[st["i"]] = st
             if len(got) != len(chunk):
